@@ -438,7 +438,9 @@ def SCHEMA_GENERATORS(src, attempt, problems):
             ('GenPanicArms.v', lambda: gen_panic_arms(src, attempt)),
             ('GenFmt.v', lambda: gen_fmt(src, attempt)),
             ('GenMaxSize.v', lambda: gen_max_size(src, attempt)),
-            ('GenSchemaImpls.v', lambda: gen_schema_impls(src, attempt, problems))]
+            ('GenSchemaImpls.v', lambda: gen_schema_impls(src, attempt, problems)),
+            ('GenSerMethods.v', lambda: __import__('translate_methods').gen_ser_methods(src, attempt)),
+            ('GenDeMethods.v', lambda: __import__('translate_methods').gen_de_methods(src, attempt))]
 
 
 # ----------------------------------------------------------------------------------------
